@@ -163,7 +163,25 @@ func c08Gen(c *core.Ctx) {
 		}
 		r := c.Rand("prog", int64(i))
 		o := gen.Options{Budget: 2 + r.IntN(10), Heredocs: true, HDBias: true, MaxHD: 1 + r.IntN(3), Flat: i%4 == 1, LeadHD: i%4 == 2}
-		core.Run(c, c08Case{Prog: gen.New(r, o).Program(), Seed: uint64(c.Seed)*2741 + uint64(i), Kind: "generated"}, c08Exec)
+		p := gen.New(r, o).Program()
+		kind := "generated"
+		if i%5 == 3 {
+			// the whole command inside a command substitution: its here-documents are
+			// read by a nested lexer
+			o.LeadHD, o.NoNested, o.Budget, o.InParen = true, i%2 == 1, 1+r.IntN(4), true
+			inner := gen.New(r, o).Program().List
+			inner.Top = false
+			inner.Items[len(inner.Items)-1].NL = true
+			k := "cmdsub"
+			if o.NoNested {
+				k = "bq"
+			}
+			outer := gen.Simple("echo")
+			outer.Post = append(outer.Post, gen.Item{W: gen.W(gen.Part{K: k, List: inner})}, gen.Item{W: gen.LW("tail")})
+			p = &gen.Program{List: &gen.CList{Top: true, Items: []*gen.AndOr{gen.AO(gen.Pipe(outer))}}}
+			kind = "inside-command-substitution"
+		}
+		core.Run(c, c08Case{Prog: p, Seed: uint64(c.Seed)*2741 + uint64(i), Kind: kind}, c08Exec)
 	}
 }
 
